@@ -20,10 +20,14 @@ LEVEL_TEXT = (
     "form (yield-count abstract interpretation + one-shot iterator typestate); (R4) every site where a builder "
     "(default step, SimpleGP, parameterless, adaptive) places an ElitismStep is found through the constructor "
     "calls: the hosting combinator is interpreted on four individuals and two sub-steps and every sub-step "
-    "application receives the complete population, and the host is not itself placed behind another step of a "
-    "SequenceStep (elitism would then only see what that step let through); fitness read through get_fitness() is"
-    " answered from a decoy table when the wrong problem is asked. Monotonicity of the best fitness over "
-    "generations follows at run time and is not separately decided."
+    "application receives the complete population, the host is interpreted (Python's float arithmetic) for "
+    "population sizes n and weights [k, n-k] / [k, j, n-k-j] - sizes where w / total * n is inexact in binary "
+    "floating point included (49, 98, 103, 107, 161) - and asks every sub-step for exactly its weight; every call"
+    " of a builder hands a variable named like one of the builder's parameters to that very parameter (elitism "
+    "and novelty counts are not swapped); and the host is not itself placed behind another step of a SequenceStep"
+    " (elitism would then only see what that step let through); fitness read through get_fitness() is answered "
+    "from a decoy table when the wrong problem is asked. Monotonicity of the best fitness over generations "
+    "follows at run time and is not separately decided."
 )
 
 
